@@ -152,6 +152,8 @@ def rewrite_body(s):
     _count('R10.neg', k)
     # R13: Option::map with a closure -> its definition as a match (Verus does not infer closure specs)
     s = rewrite_map_closure(s)
+    # R21: bool::then with a closure -> its definition (parser.rs read_u64), same reason as R13
+    s = rewrite_then_closure(s)
     # R20: reference patterns in match arms (parser.rs: `Some(&c) if c == b'-' => ..`) are not supported by Verus
     s = rewrite_ref_pattern(s)
     # R11: reserved identifiers
@@ -168,6 +170,7 @@ def rewrite_body(s):
     # RemAssign are exercised by #[cfg(test)] modules, which are never extracted).
     s, k = re.subn(r'([;{}]\s*)(\*?[a-z_][a-z0-9_]*)[ \t]*([/%])=(?!=)[ \t]*([^;{}]+);', r'\1\2 = \2 \3 (\4);', s)
     _count('R40.divrem_assign', k)
+    s = rewrite_float_out(s)  # R51, R53 (C12)
     return s
 
 
@@ -201,6 +204,37 @@ def rewrite_map_closure(s):
         _count('R13.map_closure')
         repl = '%s(match %s { Some(%s) => Some(%s), None => None })' % (lead, recv, m.group(1), body)
         s = s[:i + 1] + repl + s[end:]
+
+
+def rewrite_then_closure(s):
+    """R21: `RECV.then(|| BODY)` -> `(if RECV { Some(BODY) } else { None })`, the definition of bool::then."""
+    while True:
+        m = re.search(r'\.then\(\|\|', s)
+        if not m:
+            return s
+        op = m.start() + len('.then')
+        end = rsx.match_close(s, op)
+        body = s[m.end():end - 1].strip()
+        i = m.start() - 1
+        depth = 0
+        while i >= 0:
+            ch = s[i]
+            if ch in ')]}':
+                depth += 1
+            elif ch in '([{':
+                if depth == 0:
+                    break
+                depth -= 1
+            elif ch in ';=,' and depth == 0:
+                break
+            i -= 1
+        recv = s[i + 1:m.start()]
+        lead = recv[:len(recv) - len(recv.lstrip())]
+        recv = recv.strip()
+        if not recv:
+            raise AnchorLost('R21: empty receiver for .then(closure)')
+        _count('R21.then_closure')
+        s = s[:i + 1] + '%s(if %s { Some(%s) } else { None })' % (lead, recv, body) + s[end:]
 
 
 def rewrite_ref_pattern(s):
@@ -297,8 +331,11 @@ class Contract:
 
     def __init__(self, pre=(), ok=None, post=(), ret='r', entry=None, loops=(), value=None,
                  stub=False, props=(), no_unwind=False, exit_hint=None, opaque_body=False,
-                 extra_attrs=(), rlimit=None, out_type=None, stub_in_D=False):
+                 extra_attrs=(), rlimit=None, out_type=None, stub_in_D=False, impl_requires=False, ok_d=None):
         self.pre = list(pre)
+        # impl_requires: keep `requires` on the method of a *std* trait impl that has neither a vstd
+        # *SpecImpl nor crate-trait ghost members (C09: `impl Hash for Decimal`, domain valid(*self))
+        self.impl_requires = impl_requires
         # ok entries: 'expr' or ('name', 'expr')
         self.ok = None if ok is None else [o if isinstance(o, tuple) else ('ok%d' % i, o) for i, o in enumerate(ok)]
         self.post = list(post)
@@ -313,6 +350,8 @@ class Contract:
         self.rlimit = rlimit
         self.out_type = out_type
         self.stub_in_D = stub_in_D
+        # optional weaker form of `ok` used as the *ensures* of the D-run
+        self.ok_d = None if ok_d is None else [o if isinstance(o, tuple) else ('ok%d' % i, o) for i, o in enumerate(ok_d)]
 
 
 STD_OP_TRAITS = {
@@ -423,6 +462,7 @@ def weave_fn(item_text, key, contract, mode, em, no_requires=False, no_ensures=F
     if c is None:
         em.emit(text, ('fn', key))
         return
+    body = _ref_operands_ufcs(sig, body)  # R62
     # --- return type
     sig = sig.rstrip()
     m = None
@@ -458,7 +498,7 @@ def weave_fn(item_text, key, contract, mode, em, no_requires=False, no_ensures=F
             for n, p in c.ok:
                 requires.append((n, p))
         else:
-            for n, p in c.ok:
+            for n, p in (c.ok_d if c.ok_d is not None else c.ok):
                 ensures.append((n, p))
     for name, e in c.post:
         ensures.append((name, e))
@@ -499,6 +539,28 @@ def weave_fn(item_text, key, contract, mode, em, no_requires=False, no_ensures=F
         # wrap: let r = { body }; proof{..}; r   -- only used when no early return matters
         raise AnchorLost('exit_hint unsupported')
     em.emit(body, ('fn', key))
+
+
+def _ref_operands_ufcs(sig, body):
+    """R62 (C15 num-traits `abs_sub`: `self - other`): an infix operator whose two operands are both bare
+    parameters declared with a shared-reference type (`&self`, `x: &T`) -> the UFCS call it abbreviates
+    (`Sub::sub(self, other)`; the converse of R10, same identity).  Verus 0.2026.09.13 aborts with "verus
+    internal error: codegen_select_candidate failed" on the infix form with two reference operands."""
+    if body is None:
+        return body
+    refs = []
+    for nm, ty, slf in parse_sig(sig)['params']:
+        if slf in ('&self', "&'a self") or (ty and re.match(r"&\s*('[a-z_]+\s+)?(?!mut\b)", ty)):
+            refs.append(nm)
+    if len(refs) < 2:
+        return body
+    alt = '|'.join(re.escape(r) for r in refs)
+    inv = {v: k for k, v in OPS.items()}
+
+    def rp(m):
+        _count('R62.ref_infix')
+        return '%s(%s, %s)' % (inv[m.group(2)], m.group(1), m.group(3))
+    return re.sub(r'(?<![\w.])(%s)\s*([-+*/%%])\s*(%s)(?![\w.(\[])' % (alt, alt), rp, body)
 
 
 _LOOP_KW = ('while', 'loop', 'for')
@@ -669,6 +731,8 @@ class Unit:
                 self._emit_impl(e, it, mode, em, meta)
             elif e.kind == 'inherent':
                 self._emit_inherent(e, it, mode, em, meta)
+            elif e.kind == 'method_fn':  # R54 (C12)
+                _emit_method_fn(self, e, it, mode, em, meta)
         em.emit('} // verus!')
         em.emit('fn main() {}')
         text, linemap = em.render()
@@ -691,6 +755,7 @@ class Unit:
         if getattr(e, 'extra', None):
             ex = e.extra(mode) if callable(e.extra) else e.extra
             em.emit(ex, ('impl', e.key))
+        _emit_const_defaults(self, trait, it, e, em)  # R52 (C12)
         is_crate_trait = trait in self.crate_traits
         seen = set()
         for ch in it.children:
@@ -703,7 +768,9 @@ class Unit:
                 c = methods[ch.name]
                 if is_crate_trait and c is not None:
                     em.emit(self._ghost_defs(ch, c, mode), ('ghost', k))
-                weave_fn(ch.text, k, c, mode, em, no_requires=(trait is not None), no_ensures=is_crate_trait)
+                weave_fn(ch.text, k, c, mode, em,
+                         no_requires=(trait is not None and not (c is not None and c.impl_requires)),
+                         no_ensures=is_crate_trait)
             else:
                 em.emit(rewrite_body(strip_attrs_and_comments(ch.text)), ('impl', e.key))
         missing = set(methods) - seen
@@ -722,7 +789,7 @@ class Unit:
             if mode == 'F':
                 pre += [x for (_, x) in c.ok]
             else:
-                post = [x for (_, x) in c.ok] + post
+                post = [x for (_, x) in (c.ok_d if c.ok_d is not None else c.ok)] + post
         rn = c.ret
         if len(post) > TRAIT_POSTS:
             raise AnchorLost('more than %d post clauses on a trait method (%s)' % (TRAIT_POSTS, n))
@@ -736,9 +803,20 @@ class Unit:
         if not header.startswith('pub'):
             header = 'pub ' + header
         em.emit(header + ' {', ('impl', e.key))
+        if getattr(e, 'extra', None):
+            # extra ghost members of the trait (e.g. a `proof fn` obligation relating the ghost
+            # pre/post members, needed to verify a default method body; C09 AsIntegerRatio)
+            ex = e.extra(mode) if callable(e.extra) else e.extra
+            em.emit(ex, ('impl', e.key))
         for ch in it.children:
             if ch.kind != 'fn':
-                em.emit(rewrite_body(strip_attrs_and_comments(ch.text)), ('impl', e.key))
+                em.emit(_trait_const_default(self, e, rewrite_body(strip_attrs_and_comments(ch.text))), ('impl', e.key))  # R52
+                continue
+            if getattr(e, 'concrete', False):  # R55 (C12): contract stated directly on the trait method
+                k = e.key + '::' + ch.name
+                if rsx.fn_parts(ch.text)[1] is not None:
+                    meta['functions'][k] = _fn_meta(ch, e.src)
+                weave_fn(ch.text, k, (e.contract or {}).get(ch.name), mode, em)
                 continue
             text = rewrite_body(strip_attrs_and_comments(ch.text))
             sig, body = rsx.fn_parts(text)
@@ -904,12 +982,125 @@ def _derives_for(idx, it):
 
 
 def panic_stub(mode):
+    # R60: the stub is a `const fn` so that `const fn`s of /repo containing a panic (debug_assert! in
+    # `Decimal::new_raw`) pass rustc's const check, which runs after a fully successful verification
     if mode == 'F':
         return ('#[verifier::external_body]\n'
-                'pub fn explicit_panic() -> !\n'
+                'pub const fn explicit_panic() -> !\n'
                 '    requires false,\n'
                 '{ panic!() }\n')
     return ('#[verifier::external_body]\n'
-            'pub fn explicit_panic() -> !\n'
+            'pub const fn explicit_panic() -> !\n'
             '    ensures false,\n'
             '{ panic!() }\n')
+
+
+# --------------------------------------------------------------------------
+# C12 (Decimal -> f64/f32): rules R51-R55.  Additive; no other unit matches these patterns.
+# --------------------------------------------------------------------------
+
+def rewrite_float_out(s):
+    # R51: associated consts of the primitive float types cannot be read in Verus ("cannot read const with
+    # mode exec"): `Self::MANTISSA_DIGITS`, `Self::MAX_EXP` -> the same names on trait `StdFloatConsts`
+    # (spec/std_float_out.rs), whose impls for f64 / f32 list the std-documented values (trusted table).
+    s, k = re.subn(r'(?<![A-Za-z0-9_:])Self::(MANTISSA_DIGITS|MAX_EXP)(?![A-Za-z0-9_])', r'<Self as StdFloatConsts>::\1', s)
+    _count('R51.float_const', k)
+    # R53: the primitive cast `X.coeff as <float>` (i128 -> f64/f32).  Verus gives exec int->float casts a
+    # nondeterministic result (probed: `let a = x as f64; let b = x as f64; assert(a == b)` fails), so the
+    # cast is named: `<F as CastFromI128>::cast_from_i128(X.coeff)`, an external_body stub (spec/std_float_out.rs)
+    # whose body is the same cast and whose result is the uninterpreted `i128_as_f64/f32(x)` (trusted: rustc/LLVM).
+    s, k = re.subn(r'(?<![A-Za-z0-9_.])((?:self|[a-z_][a-z0-9_]*)\.coeff) as (Self|f64|f32)(?![A-Za-z0-9_])',
+                   r'<\2 as CastFromI128>::cast_from_i128(\1)', s)
+    _count('R53.float_cast', k)
+    return s
+
+
+# R52: Verus cannot evaluate a function call in the initializer of an associated const ("cannot call
+# function with mode exec").  A trait's defaulted associated const whose initializer calls `size_of` is
+# declared without default in the trait and instantiated in every impl of the trait that does not override
+# it (which is what rustc does), with `Self::X` resolved through the impl's `type X = T;` and
+# `size_of::<T>()` replaced from the layout table of the primitive integer types (Rust reference, "Type
+# layout": trusted).
+SIZE_OF_PRIM = {'u8': 1, 'i8': 1, 'u16': 2, 'i16': 2, 'u32': 4, 'i32': 4, 'u64': 8, 'i64': 8, 'u128': 16, 'i128': 16}
+
+
+def _trait_const_default(unit, e, text):
+    if not text.lstrip().startswith('const') or 'size_of::<' not in text:
+        return text
+    m = re.match(r'\s*const\s+(\w+)\s*:\s*([^=;]+?)\s*=\s*(.*?);\s*$', text, re.S)
+    if not m:
+        raise AnchorLost('R52: unexpected shape of defaulted associated const: %r' % text[:80])
+    tname = e.key.split('trait ')[-1]
+    unit.__dict__.setdefault('const_defaults', {}).setdefault(tname, {})[m.group(1)] = m.groups()  # idempotent per unit
+    _count('R52.const_default')
+    return 'const %s: %s;' % (m.group(1), m.group(2))
+
+
+def _emit_const_defaults(unit, trait, it, e, em):
+    for name, ty, init in unit.__dict__.get('const_defaults', {}).get(trait, {}).values():
+        if any(ch.kind == 'const' and ch.name == name for ch in it.children):
+            continue
+        types = {}
+        for ch in it.children:
+            tm = re.match(r'\s*type\s+(\w+)\s*=\s*(\w+)\s*;', strip_attrs_and_comments(ch.text)) if ch.kind == 'type' else None
+            if tm:
+                types[tm.group(1)] = tm.group(2)
+        v = re.sub(r'(?<![A-Za-z0-9_:])Self::(\w+)', lambda m: types.get(m.group(1), m.group(0)), init)
+
+        def so(m):
+            if m.group(1) not in SIZE_OF_PRIM:
+                raise AnchorLost('R52: size_of of non-primitive type %s' % m.group(1))
+            return '%dusize' % SIZE_OF_PRIM[m.group(1)]
+        v = re.sub(r'(?<![A-Za-z0-9_])size_of::<\s*([A-Za-z0-9_:]+)\s*>\(\)', so, v)
+        if 'size_of' in v or 'Self::' in v:
+            raise AnchorLost('R52: cannot instantiate default of const %s in %s: %s' % (name, e.key, v))
+        em.emit('    const %s: %s = %s;' % (name, ty, v), ('impl', e.key))
+
+
+def _trait_concrete(self, src, key, methods, ghost=None):
+    """R55: a crate trait whose methods carry their contracts directly (requires/ensures woven on the trait
+    method, default bodies verified against them) instead of the generated ghost pre/post members."""
+    e = Entry(src, key, methods, kind='trait')
+    e.extra = ghost
+    e.concrete = True
+    self.entries.append(e)
+
+
+def _method_fn(self, src, impl_key, mname, contract, fn_name):
+    """R54: a method of an impl of a *std* trait whose contract needs a domain (`requires`) the trait cannot
+    carry (Verus: "trait method implementation cannot declare requires clauses"; `From` has no `*_req`) is
+    emitted as the free function `fn_name`: same text, `Self` replaced by the impl's self type."""
+    e = Entry(src, impl_key, contract, kind='method_fn')
+    e.mname = mname
+    e.fn_name = fn_name
+    self.entries.append(e)
+    self.fn_contracts[impl_key + '::' + mname] = contract
+
+
+def _emit_method_fn(self, e, it, mode, em, meta):
+    ch = [x for x in it.children if x.kind == 'fn' and x.name == e.mname]
+    if len(ch) != 1:
+        raise AnchorLost('R54: method %s missing from %s' % (e.mname, e.key))
+    self_ty = parse_impl_header(it.header)['self_ty']
+    if not re.match(r'[A-Za-z0-9_]+$', self_ty):
+        raise AnchorLost('R54: self type %r' % self_ty)
+    t = ch[0].text
+    # R61 (C14): `Self::Assoc` -> the associated type's definition in the same impl (`type Error = X;`);
+    # after R54's `Self` -> self type the path `i128::Error` would be ambiguous
+    for a in it.children:
+        am = re.match(r'type\s+([A-Za-z_][A-Za-z0-9_]*)\s*=\s*([^;]+);\s*$', a.text.strip()) if a.kind == 'type' else None
+        if am:
+            t, k = re.subn(r'(?<![A-Za-z0-9_])Self::%s(?![A-Za-z0-9_])' % am.group(1), am.group(2).strip(), t)
+            _count('R61.assoc_type', k)
+    t = re.sub(r'(?<![A-Za-z0-9_])Self(?![A-Za-z0-9_])', self_ty, t)
+    t, k = re.subn(r'\bfn\s+%s\s*\(' % re.escape(e.mname), 'fn %s(' % e.fn_name, t, count=1)
+    if k != 1:
+        raise AnchorLost('R54: cannot rename %s' % e.mname)
+    _count('R54.method_fn')
+    key = e.key + '::' + e.mname
+    meta['functions'][key] = _fn_meta(ch[0], e.src)
+    weave_fn(t, key, e.contract, mode, em)
+
+
+Unit.trait_concrete = _trait_concrete
+Unit.method_fn = _method_fn
